@@ -257,7 +257,7 @@ def run(ctx):
         explore2.explore(ctx, "C18", r.fork(), kindsA=(["new", "set+state", "claim_oldest", "sequence"][i % 4],), kindsB=("compact", "plan"),
                          max_points=(6 if ctx.quick else 40), state_cmds=6, legacy=True)
     ctx.cov["exhaustive"] = True
-    ctx.cov["rule"] = ("generated path strings → Go Clean/Dir/Base/Join/resolveErgoDir (real temp tree, chdir) vs model; then exhaustively: 5 working directories × 7 target directories "
+    ctx.cov["rule"] = ("directories whose names end in .ergo (team.ergo with its own store, notes.ergo without); every listing is that of the store `where` names; init ∥ writer on stores without a log; generated path strings → Go Clean/Dir/Base/Join/resolveErgoDir (real temp tree, chdir) vs model; then exhaustively: 5 working directories × 7 target directories "
                        "(project, nested project, sub-directories, the .ergo directories themselves) × every --dir spelling (none, absolute, trailing slash, relative, ./relative): "
                        "`where` must name the nearest enclosing .ergo and listings must agree; all 8 combinations of plans.jsonl/events.jsonl/lock present: reads, the file written, "
                        "lock re-creation, `init` twice")
